@@ -16,6 +16,7 @@ from pbsym.models import mp as mpm
 from pbsym.models.assoc import AssocDict
 
 PROPERTY = 'C19'
+TECHNIQUE = 'solver-enumerated studio scenarios (category pairs, id orders, failing tuners, generator interleavings) executed on the real studio/equalizer/cassettes, CrossHair/z3 forking on the scenario variables'
 FUNCTIONS = ['playback/studio/studio.py::PlaybackStudio.play',
              'playback/studio/studio.py::PlaybackStudio._group_recording_ids_by_categories',
              'playback/studio/studio.py::PlaybackStudio._play_category',
